@@ -5,9 +5,13 @@ import (
 	"math"
 	"path/filepath"
 	"strings"
+	"sync"
 	"time"
 
 	"github.com/form3tech-oss/f1/v2/internal/trigger/gaussian"
+	"github.com/form3tech-oss/f1/v2/internal/verifhook"
+	"github.com/form3tech-oss/f1/v2/pkg/f1"
+	f1testing "github.com/form3tech-oss/f1/v2/pkg/f1/testing"
 )
 
 // C11: outputs of the REAL gaussian calculator over whole repeat windows.
@@ -198,6 +202,75 @@ func runC11(c *ctx, via string, vol float64, repeat, freq, peak, sd time.Duratio
 	return tr
 }
 
+// runC11CLI: the volume per window of a gaussian run started from the command line, as the SECOND run on its F1
+// instance: the earlier run was weighted (--weights 0,2), this one gives no weights - every window delivers the volume.
+// Requests are captured at the trigger's own evaluation point (hook iw.eval) and summed per repeat window (windows are
+// aligned to multiples of the repeat duration); only windows that were observed whole are reported.
+func runC11CLI() (tr c11trace) {
+	const vol = 200
+	repeat := 500 * time.Millisecond
+	tr = c11trace{V: vol, W: 100, N: 1, Via: "cli-second-run", Args: "volume=200 repeat=500ms freq=50ms peak=250ms sd=100ms, earlier run on the instance: --weights 0,2"}
+	defer func() {
+		if r := recover(); r != nil {
+			tr.Panicked = true
+			tr.Err = fmt.Sprint(r)
+		}
+	}()
+	var mu sync.Mutex
+	recording := false
+	sums := map[int64]*c11win{}
+	var firstW, lastW int64 = -1, -1
+	verifhook.Install(func(point string, _ any, n int64) {
+		if point != "iw.eval" {
+			return
+		}
+		mu.Lock()
+		defer mu.Unlock()
+		if !recording {
+			return
+		}
+		w := time.Now().UnixNano() / int64(repeat)
+		if firstW < 0 {
+			firstW = w
+		}
+		lastW = w
+		if sums[w] == nil {
+			sums[w] = &c11win{Wk: 100, MinV: math.MaxInt32}
+		}
+		x := sums[w]
+		x.S += n
+		if n > x.MaxV {
+			x.MaxV = n
+		}
+		if n < x.MinV {
+			x.MinV = n
+		}
+	})
+	defer verifhook.Install(nil)
+	scn := func(*f1testing.T) f1testing.RunFn { return func(*f1testing.T) {} }
+	inst := f1.New().WithLogger(discardLogger()).Add("scn", scn)
+	common := []string{"run", "gaussian", "scn", "--volume", "200", "--repeat", "500ms", "--iteration-frequency", "50ms", "--peak", "250ms",
+		"--standard-deviation", "100ms", "--distribution", "none", "-c", "50"}
+	_ = inst.ExecuteWithArgs(append(append([]string{}, common...), "--weights", "0,2", "--max-duration", "200ms"))
+	mu.Lock()
+	recording = true
+	mu.Unlock()
+	if err := inst.ExecuteWithArgs(append(append([]string{}, common...), "--max-duration", "2200ms")); err != nil {
+		tr.Err = err.Error()
+	}
+	mu.Lock()
+	recording = false
+	for w := firstW + 1; w < lastW; w++ { // whole windows only
+		if x := sums[w]; x != nil {
+			x.PeakV = x.MaxV // (which tick is nearest the peak is not decidable by the wall clock)
+			x.Tol = 45       // a tick next to a window boundary may be counted on the other side of it
+			tr.Windows = append(tr.Windows, *x)
+		}
+	}
+	mu.Unlock()
+	return tr
+}
+
 func init() {
 	register("c11", func(c *ctx) error {
 		w, err := newNDJSON(filepath.Join(c.out, "c11.ndjson"))
@@ -255,6 +328,12 @@ func init() {
 			if tr := runC11(c, via, vol, repeat, freq, peak, sd, weights, t0); tr.Via != "refused" {
 				w.write(tr)
 			}
+		}
+		// through the command line, as the second run on an F1 instance
+		if tr := runC11CLI(); len(tr.Windows) >= 2 || tr.Panicked {
+			w.write(tr)
+		} else {
+			fmt.Println("c11: command-line row inconclusive:", len(tr.Windows), "whole windows", tr.Err)
 		}
 		// the defaults of the CLI: 24 h window, 1 s ticks, peak 14 h, sd 150 min, weekly weights
 		w.write(runC11(c, "rates", 86400, 24*time.Hour, time.Second, 14*time.Hour, 150*time.Minute, nil, time.Date(2024, 3, 4, 0, 0, 0, 0, time.UTC)))
